@@ -1,16 +1,16 @@
 static void vm_native_setup(void) {
-  for (int i = 0; i < VM_NOBJ_STATIC; i++) { vm_size[i] = vm_static_size[i]; vm_mem[i] = calloc(vm_size[i] / 8 + 1, 8); vm_livef[i] = 1; vm_site_of[i] = -1; }
+  for (int i = 0; i < VM_NOBJ_STATIC; i++) { vm_size[i] = vm_static_size[i]; vm_mem[i] = calloc(vm_size[i] / 8 + 1, 8); vm_written[i] = malloc(vm_size[i] / 8 + 1); memset(vm_written[i], 1, vm_size[i] / 8 + 1); vm_livef[i] = 1; vm_site_of[i] = -1; }
   vm_nobj = VM_NOBJ_STATIC;
 }
 static W* vm_cellp(W a) {
   W o = (a >> 20) - 1, off = a & 0xfffffUL;
-  if (a < (1UL << 20) || o >= (W)vm_nobj || off >= vm_size[o]) { printf("ASSERTION FAILED: memory safety: bad address %lx\n", a); vm_failed = 1; exit(4); }
+  if (a < (1UL << 20) || o >= VM_MAXOBJ || !vm_mem[o] || off >= vm_size[o]) { printf("ASSERTION FAILED: memory safety: bad address %lx\n", a); vm_failed = 1; exit(4); }
   if (!vm_livef[o]) { printf("ASSERTION FAILED: memory safety: access to a freed or out-of-scope object\n"); vm_failed = 1; }
   return &vm_mem[o][off >> 3];
 }
 static W vm_szmask(int sz) { return sz == 8 ? ~0UL : sz == 4 ? 0xffffffffUL : sz == 2 ? 0xffffUL : 0xffUL; }
 static W vm_n_ld(W a, int sz) { W c = *vm_cellp(a & ~7UL); if (sz == 8) return c; return (c >> ((a & 7UL) * 8)) & vm_szmask(sz); }
-static void vm_n_st(W a, W v, int sz) { W* p = vm_cellp(a & ~7UL); if (sz == 8) { *p = v; return; } W sh = (a & 7UL) * 8, m = vm_szmask(sz) << sh; *p = (*p & ~m) | ((v << sh) & m); }
+static void vm_n_st(W a, W v, int sz) { W* p = vm_cellp(a & ~7UL); vm_written[(a >> 20) - 1][(a & 0xfffffUL) >> 3] = 1; if (sz == 8) { *p = v; return; } W sh = (a & 7UL) * 8, m = vm_szmask(sz) << sh; *p = (*p & ~m) | ((v << sh) & m); }
 static W vm_n_rmw(int op, W a, W v, int sz) { W o = vm_n_ld(a, sz); W n = op == 0 ? v : op == 1 ? o + v : op == 2 ? o - v : op == 3 ? (o & v) : op == 4 ? (o | v) : (o ^ v); vm_n_st(a, n & vm_szmask(sz), sz); return o; }
 static W vm_n_cas(W a, W e, W n, int sz, W* ok) { W o = vm_n_ld(a, sz); *ok = (o == e); if (o == e) vm_n_st(a, n, sz); return o; }
 static W vm_n_cas2(W a, W elo, W ehi, W nlo, W nhi) { W lo = vm_n_ld(a, 8), hi = vm_n_ld(a + 8, 8); if (lo == elo && hi == ehi) { vm_n_st(a, nlo, 8); vm_n_st(a + 8, nhi, 8); return 1; } return 0; }
@@ -25,13 +25,21 @@ static W vm_native_malloc(int site, W size, int zero) {
   vm_size[o] = (size + 7) / 8 * 8; if (!vm_size[o]) vm_size[o] = 8;
   vm_mem[o] = calloc(vm_size[o] / 8 + 1, 8);
   if (!zero) memset(vm_mem[o], 0xA5, vm_size[o]);
+  vm_written[o] = malloc(vm_size[o] / 8 + 1); memset(vm_written[o], zero ? 1 : 0, vm_size[o] / 8 + 1);
   vm_site_of[o] = site; vm_livef[o] = 1;
   return ((W)(o + 1)) << 20;
 }
 #define VM_MALLOC(site, size, zero) vm_native_malloc(site, size, zero)
-#define VM_ALLOCA(site) vm_native_malloc(-1 - (site), vm_site_size[site], 0)
+static int vm_nalloca;
+static W vm_native_alloca(int site) { /* stack slots take object ids from the top so that heap ids match the CBMC-mode numbering */
+  int o = VM_MAXOBJ - 1 - (vm_nalloca++ % 1024);
+  vm_size[o] = (vm_site_size[site] + 7) / 8 * 8; if (!vm_size[o]) vm_size[o] = 8;
+  free(vm_mem[o]); vm_mem[o] = malloc(vm_size[o] + 8); memset(vm_mem[o], 0xA5, vm_size[o]); free(vm_written[o]); vm_written[o] = calloc(vm_size[o] / 8 + 1, 1); vm_livef[o] = 1; vm_site_of[o] = -1;
+  return ((W)(o + 1)) << 20;
+}
+#define VM_ALLOCA(site) vm_native_alloca(site)
 #define VM_ALLOCA_END(site) do { } while (0)
-static void vm_native_free(W a) { if (!a) return; W o = (a >> 20) - 1; if ((a & 0xfffffUL) || o >= (W)vm_nobj || !vm_livef[o]) { printf("ASSERTION FAILED: memory safety: bad or double free\n"); vm_failed = 1; return; } vm_livef[o] = 0; }
+static void vm_native_free(W a) { if (!a) return; W o = (a >> 20) - 1; if ((a & 0xfffffUL) || o >= VM_MAXOBJ || !vm_mem[o] || !vm_livef[o]) { printf("ASSERTION FAILED: memory safety: bad or double free\n"); vm_failed = 1; return; } vm_livef[o] = 0; }
 #define VM_FREE(s, a) vm_native_free(a)
 static void vm_assume(W c) { if (!c) { printf("assumption violated\n"); exit(6); } }
 static W vm_nondet(void) { return 0; }
@@ -44,14 +52,13 @@ static void vm_dump_allocs(void) {
   const char* p = getenv("VM_ALLOC_LOG");
   if (!p) return;
   FILE* f = fopen(p, "w");
-  fprintf(f, "[");
-  int first = 1;
-  for (int o = VM_NOBJ_STATIC; o < vm_nobj; o++) {
-    if (vm_site_of[o] < 0) continue; /* allocas of init: frame-local */
-    fprintf(f, "%s{\"site\": \"%s\", \"size\": %lu}", first ? "" : ", ", vm_site_name[vm_site_of[o]], vm_size[o]);
-    first = 0;
+  fprintf(f, "{\"nstatic\": %d, \"objects\": [", VM_NOBJ_STATIC);
+  for (int o = 0; o < vm_nobj; o++) {
+    fprintf(f, "%s{\"site\": \"%s\", \"size\": %lu, \"live\": %d, \"cells\": [", o ? ", " : "", vm_site_of[o] >= 0 ? vm_site_name[vm_site_of[o]] : "", vm_size[o], vm_livef[o]);
+    for (unsigned long c = 0; c < vm_size[o] / 8; c++) { if (vm_written[o][c]) fprintf(f, "%s%lu", c ? ", " : "", vm_mem[o][c]); else fprintf(f, "%snull", c ? ", " : ""); }
+    fprintf(f, "]}");
   }
-  fprintf(f, "]\n");
+  fprintf(f, "]}\n");
   fclose(f);
 }
 static int vm_native_run(int argc, char** argv) { return vm_failed; }
